@@ -70,3 +70,148 @@ def node_step(k: int, n: int, nch: int, r0: bool, r1: bool, r2: bool, r3: bool, 
         assert (type(raised) is OpsLimit) == (st.ops_evaluated >= n), "ops-limit error iff the counter reached N"
     assert len(st.names.scopes) == 2, "scope stack not restored"
     hlib.done()
+
+
+# ---------------------------------------------------------------------------------------------
+# API templates: concrete texts through the real SqParser.eval, symbolic budget / host data
+from sqv.api import PARSER, count_nodes, run_eval, Probe, prewarm  # noqa
+if isinstance(hlib.PARAM, dict):
+    prewarm(hlib.PARAM.get("text"), hlib.PARAM.get("define"), hlib.PARAM.get("use"))
+
+
+def api_forward(n: int, a: int, b: int, c: bool) -> None:
+    """
+    pre: n >= 1
+    post: True
+    """
+    hlib.enter(locals())
+    text = hlib.PARAM["text"]
+    names = {'a': a, 'b': b, 'c': c}
+    need = count_nodes(text, dict(names))        # independent count, unbounded run with wrapped evals
+    out = run_eval(text, names, n)
+    if need < n:
+        assert out[0] == 'ok', "run needing fewer than N ops did not return normally"
+    else:
+        assert out[0] == 'err' and out[1] is OpsLimit, "run needing >= N ops did not raise ops-limit"
+    hlib.done()
+
+
+from typing import List
+
+
+def _names(a, b, c, l, j, probe, swallow=False):
+    def h(f):
+        r = 0
+        for _ in range(j):
+            if swallow:
+                try:
+                    r = f(r)
+                except Exception:
+                    pass
+            else:
+                r = f(r)
+        return r
+    return {'a': a, 'b': b, 'c': c, 'l': list(l), 'h': h, 't': probe, 'one': 1, 'zero': 0}
+
+
+def api_budget(n: int, a: int, b: int, c: bool, l: List[int], j: int) -> None:
+    """
+    pre: n >= 1 and len(l) <= 3 and 0 <= j <= 3 and 0 <= a <= 3
+    post: True
+    """
+    hlib.enter(locals())
+    text = hlib.PARAM["text"]
+    api_reset()
+    out = run_eval(text, _names(a, b, c, l, j, Probe()), n)
+    started = api_count()      # independent count of node evaluations started by this run
+    if out[0] == 'err' and out[1] is OpsLimit:
+        assert started == n, "ops-limit error raised at an operation other than the N-th"
+    else:
+        assert started < n, "run returned (or failed otherwise) after starting N or more operations"
+    hlib.done()
+
+
+def api_default_budget(a: int, b: int, c: bool) -> None:
+    """
+    pre: True
+    post: True
+    """
+    hlib.enter(locals())
+    text = hlib.PARAM["text"]
+    need = count_nodes(text, {'a': a, 'b': b, 'c': c})
+    out = run_eval(text, {'a': a, 'b': b, 'c': c}, None, parser=PARSER)
+    assert (out[0] == 'err' and out[1] is OpsLimit) == (need >= 100), "default budget is not 100"
+    hlib.done()
+
+
+def api_monotone(n: int, d: int, a: int, b: int, c: bool, l: List[int], j: int) -> None:
+    """
+    pre: n >= 1 and d >= 0 and len(l) <= 3 and 0 <= j <= 3 and 0 <= a <= 3
+    post: True
+    """
+    hlib.enter(locals())
+    text = hlib.PARAM["text"]
+    p0, p1, p2 = Probe(), Probe(), Probe()
+    n0, n1, n2 = _names(a, b, c, l, j, p0), _names(a, b, c, l, j, p1), _names(a, b, c, l, j, p2)
+    out0 = run_eval(text, n0, 10**9)            # unbounded run
+    out1 = run_eval(text, n1, n)
+    if out1[0] == 'ok':
+        out2 = run_eval(text, n2, n + d)
+        assert out2[0] == 'ok' and out2[1] == out1[1], "success with N but different outcome with N+d"
+        assert p2.log == p1.log, "host-visible effects differ between N and N+d"
+        assert n1['l'] == n2['l']
+    if out1[0] == 'err' and out1[1] is OpsLimit:
+        assert p1.log == p0.log[:len(p1.log)], "effects of an aborted run are not a prefix of the unbounded run's"
+    else:
+        assert out1[:2] == out0[:2] or (out0[0] == 'ok' and out1[0] == 'ok' and out0[1] == out1[1])
+        assert p1.log == p0.log
+    hlib.done()
+
+
+def api_swallow(n: int, a: int, j: int) -> None:
+    """
+    pre: n >= 1 and 0 <= j <= 3 and 0 <= a <= 3
+    post: True
+    """
+    hlib.enter(locals())
+    text = hlib.PARAM["text"]
+    p = Probe()
+    names = _names(a, 0, False, [], j, p, swallow=True)
+    need_before = []
+
+    def t(i, v=None):
+        # host-visible effect: remember how many node evaluations had been started when it happened
+        need_before.append(api_count())
+        return v
+    names['t'] = t
+    api_reset()
+    run_eval(text, names, n)
+    for started in need_before:
+        assert started < n, "a host-visible effect happened at or after the N-th operation"
+    hlib.done()
+
+
+from sqv.api import api_count, api_reset  # noqa
+
+
+def cross_eval(n1: int, n2: int, a: int, j: int) -> None:
+    """
+    pre: n1 >= 4 and n2 >= 1 and 0 <= j <= 3
+    post: True
+    """
+    hlib.enter(locals())
+    # lambda defined by one eval (budget n1), invoked by a later eval (budget n2) sharing `names`
+    names = {'a': a}
+    out = run_eval(hlib.PARAM["define"], names, n1)
+    hlib.assume(out[0] == 'ok')
+    for _ in range(j):
+        run_eval(hlib.PARAM["use"], names, 10**6)   # earlier uses by other calls must not matter
+    need = count_nodes(hlib.PARAM["use"], dict(names))
+    for _ in range(j):
+        run_eval(hlib.PARAM["use"], names, 10**6)
+    out2 = run_eval(hlib.PARAM["use"], names, n2)
+    if need < n2:
+        assert out2[0] == 'ok', "cross-eval lambda: later eval failed although its own node evaluations < its budget"
+    else:
+        assert out2[0] == 'err' and out2[1] is OpsLimit, "cross-eval lambda: later eval exceeded its own budget without error"
+    hlib.done()
